@@ -156,6 +156,265 @@ func stageTargetsNonNegative(c *core.Ctx, r *core.Report) {
 	r.Floor("stage fields fed from Atoi", n, 1)
 }
 
+// sameLen: two evaluations of len() of the same value.
+func sameLen(a, b ssa.Value) bool {
+	ca, ok1 := an.Strip(a).(*ssa.Call)
+	cb, ok2 := an.Strip(b).(*ssa.Call)
+	return ok1 && ok2 && an.IsBuiltinCall(ca, "len") && an.IsBuiltinCall(cb, "len") && an.Strip(ca.Call.Args[0]) == an.Strip(cb.Call.Args[0])
+}
+
+// positiveGuard: on the way to `at`, v was tested > 0 (or >= 1).
+func positiveGuard(at ssa.Instruction, v ssa.Value) bool {
+	for _, g := range an.GuardsOf(at.Block()) {
+		bo, ok := g.Cond.(*ssa.BinOp)
+		if !ok || !(sameCellLoad(g.T(bo.X), v) || an.Strip(g.T(bo.X)) == an.Strip(v) || sameLen(g.T(bo.X), v)) {
+			continue
+		}
+		k, isK := bo.Y.(*ssa.Const)
+		if !isK || k.Value == nil {
+			continue
+		}
+		z := k.Float64()
+		switch {
+		case bo.Op == token.GTR && g.Polarity && z >= 0, bo.Op == token.LEQ && !g.Polarity && z >= 0,
+			bo.Op == token.GEQ && g.Polarity && z >= 1, bo.Op == token.LSS && !g.Polarity && z >= 1:
+			return true
+		}
+	}
+	return false
+}
+
+// nonNegativeGuard: on the way to `at`, v was tested >= 0.
+func nonNegativeGuard(at ssa.Instruction, v ssa.Value) bool {
+	if positiveGuard(at, v) {
+		return true
+	}
+	for _, g := range an.GuardsOf(at.Block()) {
+		bo, ok := g.Cond.(*ssa.BinOp)
+		if !ok || !(sameCellLoad(g.T(bo.X), v) || an.Strip(g.T(bo.X)) == an.Strip(v)) {
+			continue
+		}
+		k, isK := bo.Y.(*ssa.Const)
+		if !isK || k.Value == nil || k.Float64() != 0 {
+			continue
+		}
+		if (bo.Op == token.LSS && !g.Polarity) || (bo.Op == token.GEQ && g.Polarity) {
+			return true
+		}
+	}
+	return false
+}
+
+// randomBoundsPositive implements C14.R10.
+func randomBoundsPositive(c *core.Ctx, r *core.Report) {
+	n := 0
+	for _, fn := range c.AllFuncs {
+		if !strings.HasPrefix(core.RelPkg(fn), "internal/trigger") {
+			continue
+		}
+		for _, call := range an.AllCalls(fn) {
+			isDraw := an.IsFunc(an.Callee(call), "math/rand", "Intn") || an.IsFunc(an.Callee(call), "math/rand/v2", "IntN")
+			if !isDraw && an.Callee(call) == nil && !call.Common().IsInvoke() && an.DynCallType(call) == nil {
+				if sig, ok := call.Common().Value.Type().Underlying().(*types.Signature); ok && sig.Params().Len() == 1 && sig.Results().Len() == 1 {
+					pb, okP := sig.Params().At(0).Type().Underlying().(*types.Basic)
+					rb, okR := sig.Results().At(0).Type().Underlying().(*types.Basic)
+					isDraw = okP && okR && pb.Kind() == types.Int && rb.Kind() == types.Int
+				}
+			}
+			if !isDraw || len(call.Common().Args) != 1 {
+				continue
+			}
+			n++
+			arg := call.Common().Args[0]
+			okPos := false
+			if k, isK := arg.(*ssa.Const); isK && k.Value != nil && k.Int64() > 0 {
+				okPos = true
+			}
+			okPos = okPos || positiveGuard(call, arg)
+			r.Check(okPos, core.FuncName(fn)+"#random-bound", an.Pos(c, call), "the bound of the random draw is > 0 on this path", "the random source is asked for a draw below "+an.D().Of(arg)+" without a test that it is positive: a negative count from the rate function (negative volume or weights, a window not longer than the tick) makes rand.Intn panic during the run")
+		}
+	}
+	r.Floor("random draws in the trigger packages", n, 1)
+}
+
+// gaussianPreconditions implements C11.R6 on the function that builds the gaussian calculator.
+func gaussianPreconditions(c *core.Ctx, r *core.Report) {
+	const gpkg = "internal/trigger/gaussian"
+	var ctor *ssa.Function
+	for _, fn := range c.AllFuncs {
+		if core.RelPkg(fn) != gpkg || fn.Parent() != nil || fn.Signature.Results().Len() != 2 {
+			continue
+		}
+		if an.IsNamed(fn.Signature.Results().At(0).Type(), core.ModPath+"/"+gpkg, "Calculator") {
+			ctor = fn
+		}
+	}
+	if ctor == nil {
+		panic(core.AnchorError{What: "the constructor of gaussian.Calculator"})
+	}
+	// the literal returned on success
+	var lit *ssa.Alloc
+	var okRet *ssa.Return
+	for _, ret := range an.Returns(ctor) {
+		if isNilConst(ret.Results[1]) {
+			lit, okRet = an.StructLiteralOf(ret.Results[0]), ret
+		}
+	}
+	if lit == nil {
+		r.Undecided(core.FuncName(ctor)+"#literal", c.Pos(ctor.Pos()), "the calculator is not returned as a literal")
+		return
+	}
+	key := core.FuncName(ctor)
+	// (1) float parameters scaling the rate (the volume) are tested not negative
+	for _, p := range ctor.Params {
+		if b, ok := p.Type().Underlying().(*types.Basic); ok && b.Info()&types.IsFloat != 0 {
+			r.Check(nonNegativeGuard(okRet, p), key+"#"+p.Name()+">=0", c.Pos(ctor.Pos()), "parameter "+p.Name()+" is tested not negative before the calculator is returned", "the calculator is built without rejecting a negative "+p.Name()+": every tick then requests a negative count")
+		}
+	}
+	// (2) every element of a []float64 parameter (the weights) is tested not negative inside a loop that can reject
+	for _, p := range ctor.Params {
+		sl, ok := p.Type().Underlying().(*types.Slice)
+		if !ok {
+			continue
+		}
+		if b, isB := sl.Elem().Underlying().(*types.Basic); !isB || b.Info()&types.IsFloat == 0 {
+			continue
+		}
+		tested := false
+		for _, b := range ctor.Blocks {
+			iff, isIf := b.Instrs[len(b.Instrs)-1].(*ssa.If)
+			if !isIf {
+				continue
+			}
+			bo, isBin := iff.Cond.(*ssa.BinOp)
+			if !isBin {
+				continue
+			}
+			ia, isIA := an.Strip(bo.X).(*ssa.IndexAddr)
+			if !isIA || an.Strip(ia.X) != ssa.Value(p) {
+				continue
+			}
+			if k, isK := bo.Y.(*ssa.Const); isK && k.Value != nil && k.Float64() == 0 && (bo.Op == token.LSS || bo.Op == token.GEQ) {
+				rej := b.Succs[0]
+				if bo.Op == token.GEQ {
+					rej = b.Succs[1]
+				}
+				for _, ret := range an.Returns(ctor) {
+					if (ret.Block() == rej || rej.Dominates(ret.Block())) && !isNilConst(ret.Results[1]) {
+						tested = true
+					}
+				}
+			}
+		}
+		r.Check(tested, key+"#"+p.Name()+"-elements>=0", c.Pos(ctor.Pos()), "every element of "+p.Name()+" is tested not negative", "the elements of "+p.Name()+" are not tested: a negative weight turns that window's requests negative")
+	}
+	// (3) float divisions by computed values, and float fields the rate method divides by
+	divFields := map[string]bool{}
+	for _, fn := range c.AllFuncs {
+		if core.RelPkg(fn) != gpkg || fn == ctor {
+			continue
+		}
+		an.Instrs(fn, func(in ssa.Instruction) {
+			bo, ok := in.(*ssa.BinOp)
+			if !ok || bo.Op != token.QUO {
+				return
+			}
+			if b, isB := bo.Type().Underlying().(*types.Basic); !isB || b.Info()&types.IsFloat == 0 {
+				return
+			}
+			if fld, owner := an.TerminalField(bo.Y); fld != nil && an.IsNamed(owner, core.ModPath+"/"+gpkg, "Calculator") {
+				divFields[fld.Name()] = true
+			}
+		})
+	}
+	an.Instrs(ctor, func(in ssa.Instruction) {
+		bo, ok := in.(*ssa.BinOp)
+		if !ok || bo.Op != token.QUO {
+			return
+		}
+		if b, isB := bo.Type().Underlying().(*types.Basic); !isB || b.Info()&types.IsFloat == 0 {
+			return
+		}
+		if _, isK := bo.Y.(*ssa.Const); isK {
+			return
+		}
+		// float64(len(x)) under len(x) > 0 (or != 0: a length is never negative)
+		if cv, isCv := bo.Y.(*ssa.Convert); isCv {
+			if call, isCall := cv.X.(*ssa.Call); isCall && an.IsBuiltinCall(call, "len") {
+				okLen := positiveGuard(in, call)
+				for _, g := range an.GuardsOf(in.Block()) {
+					gb, isBin := g.Cond.(*ssa.BinOp)
+					if !isBin || !(an.Strip(gb.X) == ssa.Value(call) || sameLen(gb.X, call)) {
+						continue
+					}
+					if k, isK := gb.Y.(*ssa.Const); isK && k.Value != nil && k.Float64() == 0 && ((gb.Op == token.EQL && !g.Polarity) || (gb.Op == token.NEQ && g.Polarity)) {
+						okLen = true
+					}
+				}
+				if okLen {
+					r.OK(key+"#div-by-len", an.Pos(c, in), "divides by a length tested > 0")
+					return
+				}
+			}
+		}
+		r.Check(positiveGuard(in, bo.Y), key+"#divisor>0@"+an.D().Of(bo.Y), an.Pos(c, in), "the divisor is tested > 0 before the division", "the scale is divided by "+an.D().Of(bo.Y)+" without a test that it is positive: a repeat window not longer than the tick interval (or a distribution lying outside the window) makes it zero or negative, and the rate becomes infinite or negative")
+	})
+	for f, vs := range an.LiteralFieldStores(lit) {
+		if !divFields[f] {
+			continue
+		}
+		okPos := true
+		for _, v := range vs {
+			// where this value is stored (or, for the literal's own stores, where the calculator is returned)
+			var at ssa.Instruction = okRet
+			for _, ref := range an.Referrers(lit) {
+				if fa, isFA := ref.(*ssa.FieldAddr); isFA && an.FieldOfAddr(fa).Name() == f {
+					for _, st := range an.StoresTo(fa) {
+						if st.Val == v {
+							at = st
+						}
+					}
+				}
+			}
+			one := false
+			switch x := an.Strip(v).(type) {
+			case *ssa.Const:
+				one = x.Value != nil && x.Float64() > 0
+			case *ssa.Phi:
+				one = true
+				for i, e := range x.Edges {
+					if k, isK := e.(*ssa.Const); isK && k.Value != nil && k.Float64() > 0 {
+						continue
+					}
+					pred := x.Block().Preds[i]
+					if positiveGuard(pred.Instrs[len(pred.Instrs)-1], e) || positiveGuard(okRet, e) {
+						continue
+					}
+					// the edge itself is the passing side of a test of the value
+					onEdge := false
+					if iff, isIf := pred.Instrs[len(pred.Instrs)-1].(*ssa.If); isIf {
+						if bo, isBin := iff.Cond.(*ssa.BinOp); isBin && an.Strip(bo.X) == an.Strip(e) {
+							if k, isK := bo.Y.(*ssa.Const); isK && k.Value != nil && k.Float64() >= 0 {
+								taken := pred.Succs[0] == x.Block()
+								onEdge = (bo.Op == token.LEQ && !taken) || (bo.Op == token.GTR && taken)
+							}
+						}
+					}
+					if !onEdge {
+						one = false
+					}
+				}
+			default:
+				one = positiveGuard(at, v) || positiveGuard(okRet, v)
+			}
+			if !one {
+				okPos = false
+			}
+		}
+		r.Check(okPos, key+"#"+f+">0", c.Pos(lit.Pos()), "field "+f+" (a divisor of the rate) is positive when the calculator is returned", "field "+f+", which the rate is divided by, is not shown positive: weights that sum to zero give a NaN rate, i.e. a negative request")
+	}
+}
+
 // limitPlumbing: the plain uint64 field of PoolManager (the limit the refusal predicate of C03.R2 compares with) is
 // only ever set from a constructor parameter, and every constructor call passes a RunOptions.MaxIterations.
 func limitPlumbing(c *core.Ctx, r *core.Report) {
@@ -304,6 +563,17 @@ func init() {
 			stageTargetsNonNegative(c, r)
 		})
 	})
+	extra["C14"] = append(extra["C14"], func(c *core.Ctx, r *core.Report) {
+		rule(r, "C14.R10", "a random draw is only asked for a positive bound: every argument handed to rand.Intn or to an injected func(int) int random source in the trigger packages is tested > 0 on the path to the call (Intn panics for n <= 0, and a rate function can return a negative count)", func() {
+			randomBoundsPositive(c, r)
+		})
+	})
+	extra["C11"] = append(extra["C11"], func(c *core.Ctx, r *core.Report) {
+		rule(r, "C11.R6", "the preconditions under which the gaussian rate is non-negative and finite are enforced when the calculator is built: the volume is tested not negative, every weight not negative, and every computed value the scale is divided by (the covered probability mass, the mean weight) is tested > 0 before the division or before it is stored", func() {
+			gaussianPreconditions(c, r)
+		})
+	})
+	imported("C14", "C14.R11", "a gaussian trigger built from accepted input has a finite, non-negative rate (shared with C11.R6)", "C11", []string{"C11.R6"}, nil, 1)
 	extra["C05"] = append(extra["C05"], func(c *core.Ctx, r *core.Report) {
 		rule(r, "C05.R10", "the duration limit enforced is the configured one: RunOptions.MaxDuration comes from the --max-duration flag / the config file's max-duration", func() {
 			runOptionSources(c, r, []string{"MaxDuration"})
